@@ -841,49 +841,47 @@ impl Gen {
         self.drain(d, true);
     }
 
-    /// the payload buffer fills up exactly; the frame buffer holds a maximal frame; partial flushes in between
+    /// the payload buffer fills up exactly while a maximal frame is still unsent: poll_write must push the old frame out
+    /// completely (Pending / WriteZero / error / partial progress) before it seals the payload and accepts a byte
     fn fam_full_payload(&mut self) {
         self.init();
         let d = self.rng.gen_range(0..2);
         let m = MAX_PAYLOAD_LEN as u64;
-        match self.rng.gen_range(0..6) {
+        // payload full -> sealed into the maximal frame A (no transport call: nothing was pending) -> payload full again
+        let first = *[m, m + 1, 70000].choose(&mut self.rng).unwrap();
+        self.write(d, first, vec![]);
+        self.write(d, 1, vec![json!("P")]);
+        self.write(d, m, vec![]);
+        match self.rng.gen_range(0..5) {
             0 => {
-                self.write(d, m, vec![]);
-                self.write(d, 1, vec![json!("P")]); // must flush the payload first: Pending, nothing accepted
-                self.write(d, 1, vec![json!(1), json!(1), json!("P")]); // frame sealed but stuck
-                self.write(d, 5, vec![]); // payload has room again: no transport call
-                self.write(d, m, vec![json!(BIG)]); // fills up again (m-6 accepted)
-                self.write(d, 7, vec![json!(70000)]);
+                self.write(d, 1, vec![json!("P")]); // A cannot go out: Pending, nothing accepted
+                self.write(d, 1, vec![json!(1), json!(1), json!("P")]); // two bytes of A go out, still Pending
+                self.write(d, 1, vec![json!(65534), json!("P")]); // one byte of A left
+                self.write(d, 2, vec![json!(1)]); // A done, payload sealed into B, 2 bytes accepted
             }
             1 => {
-                self.write(d, m - 1, vec![]);
-                self.write(d, 2, vec![]); // only 1 fits
-                self.write(d, 1, vec![json!(65536), json!("P")]); // old payload sealed into a maximal frame: 1 byte stays unsent
-                self.write(d, 3, vec![json!(1)]);
+                self.write(d, 1, vec![json!(0)]); // WriteZero
+                self.write(d, 1, vec![json!(17), json!("E")]); // transport error after partial progress
+                self.write(d, 1, vec![json!(65536), json!("P")]);
+                self.write(d, 1, vec![json!(BIG)]);
             }
             2 => {
-                self.write(d, 70000, vec![]); // accepts m
-                self.write(d, 70000 - m, vec![json!(BIG)]);
-                self.flush(d, vec![json!(65537), json!("P")], "ok");
+                self.flush(d, vec![json!(2), json!(65534), json!("P")], "ok"); // one byte of A left
+                self.write(d, 1, vec![json!("P")]);
+                self.flush(d, vec![json!(1), json!("P")], "ok"); // A done, B sealed and offered, Pending
+                self.write(d, 5, vec![]); // room in the payload: no transport call
+                self.flush(d, vec![json!(65537), json!("P")], "ok"); // B done, C sealed
             }
             3 => {
-                self.write(d, m, vec![]);
-                self.flush(d, vec![json!(2), json!(65534), json!("P")], "ok"); // one byte of the maximal frame left
-                self.write(d, m, vec![]);
-                self.write(d, 1, vec![json!(1), json!(17), json!("P")]);
-                self.write(d, 1, vec![json!(BIG)]);
-            }
-            4 => {
-                self.write(d, 2 * m, vec![]);
-                self.write(d, m, vec![json!(BIG)]);
-                self.write(d, m, vec![json!(BIG)]);
-                self.write(d, 1, vec![json!(BIG)]);
+                self.write(d, 70000, vec![json!(BIG)]); // A out in one piece; accepts m
+                self.write(d, 70000 - m, vec![json!(65536), json!(BIG)]); // B out in two pieces
+                self.shutdown(d, vec![json!(1), json!(65536), json!("P")], "ok");
             }
             _ => {
-                self.write(d, m + 1, vec![]);
-                self.write(d, 1, vec![json!(0)]); // WriteZero while flushing the payload
-                self.write(d, 1, vec![json!("E")]);
-                self.write(d, 1, vec![json!(BIG)]);
+                self.write(d, 1, vec![json!(65537)]); // exactly A
+                self.write(d, m - 1, vec![]); // fills up again
+                self.write(d, 1, vec![json!(65536), json!(1), json!("P")]); // B out, sealed C, accepted
+                self.write(d, 1, vec![json!("E")]); // not full: no transport call
             }
         }
         // read with fragments around the maximal frame
